@@ -175,6 +175,11 @@ AfterTopFallback(h, k) == \E j \in 1..(k-1) : Is(h[j], "Fallback") /\ h[j].l = 1
 D2(cf, h) == \A k \in 1..Len(h) :
                ((Is(h[k], "Handle") \/ Is(h[k], "HRead") \/ Is(h[k], "Term")) /\ ~AfterTopFallback(h, k))
                   => LastDl(h, k) = 0
+\* D2b: the fallback of a route list (close, the handler after a subroute, the wrapped listener) receives the
+\*      connection with the matching deadline cleared as well - except for an EMPTY list (see above)
+\*      whose deadline, armed on entry, nobody clears: not on its own fallback, and not on the fallback of the
+\*      enclosing list if the subroute handler was its last handler of its last route
+D2b(cf, h) == \A k \in 1..Len(h) : Is(h[k], "Fallback") => (LastDl(h, k) = 0 \/ Len(cf.lists[LastDl(h, k)]) = 0)
 RECURSIVE SumPull(_)
 SumPull(h) == IF h = <<>> THEN 0
               ELSE (IF Is(Head(h), "Pull") THEN Head(h).n ELSE 0) + SumPull(Tail(h))
@@ -212,6 +217,7 @@ Violations(cf, h, limit, chunk) ==
   \cup (IF R8(cf, h) THEN {} ELSE {"R8 a tee branch did not read what the handlers after the tee read"})
   \cup (IF D1(cf, h) THEN {} ELSE {"D1 matching pulled bytes without an armed deadline"})
   \cup (IF D2(cf, h) THEN {} ELSE {"D2 handler of a matched route ran with the matching deadline armed"})
+  \cup (IF D2b(cf, h) THEN {} ELSE {"D2b the fallback received the connection with the matching deadline still armed"})
   \cup (IF D3(cf, h, limit) THEN {} ELSE {"D3 matching abandoned without cause"})
   \cup (IF B1(cf, h, limit, chunk) THEN {} ELSE {"B1 more than limit+chunk-1 bytes pulled before any handler"})
   \cup (IF B2(cf, h, limit, chunk) THEN {} ELSE {"B2 more than limit+chunk-1 bytes buffered"})
